@@ -132,6 +132,9 @@ pub enum Op {
     Await { call: usize },
     /// await every acknowledgement this thread obtained so far
     AwaitAll,
+    /// poll the acknowledgement of call number `call` once from a context of its own (a waker that is not the one a
+    /// later `Await` blocks on) and give up: what a `select!` / timeout around the acknowledgement does
+    PollOnce { call: usize },
     Advance { ms: u64 },
     /// send one manual tick to the sweeper (blocks while the previous tick has not been taken)
     Tick,
@@ -165,6 +168,7 @@ impl Op {
             Op::ReadAll { keys } => format!("read_all_variants({:?})", keys),
             Op::Await { call } => format!("await(#{})", call),
             Op::AwaitAll => "await_all".into(),
+            Op::PollOnce { call } => format!("poll_once(#{})", call),
             Op::Advance { ms } => format!("clock+{}ms", ms),
             Op::Tick => "tick".into(),
             Op::TickWait => "tick+wait".into(),
@@ -534,6 +538,13 @@ impl ThreadCtx {
                 let ack = self.acks.iter().find(|(c, _)| c == call).map(|(_, a)| a.clone());
                 match ack {
                     Some(a) => catch(|| block_on_status(&a)).map(|s| Res::Status(vec![(*call, s)])),
+                    None => Ok(Res::Status(vec![])),
+                }
+            }
+            Op::PollOnce { call } => {
+                let ack = self.acks.iter().find(|(c, _)| c == call).map(|(_, a)| a.clone());
+                match ack {
+                    Some(a) => catch(|| peek_status(&a)).map(|s| Res::Status(vec![(*call, s)])),
                     None => Ok(Res::Status(vec![])),
                 }
             }
